@@ -33,7 +33,8 @@ def ledger_monitor(ctx, tr, ix):
     ghost = cfgk["accounts"]["stock"]           # total_cash + pending deposits
     qty = collections.Counter()
     prev = {}
-    replay = {"seed_note": "trading stream", "cfg": {k: v for k, v in cfgk.items() if k != "accounts"}, "accounts": cfgk["accounts"]}
+    replay = {"seed_note": "trading stream", "cfg": {k: v for k, v in cfgk.items() if k != "accounts"}, "accounts": cfgk["accounts"],
+              "run_seed": getattr(tr, "run_seed", None), "run_index": getattr(tr, "run_index", None)}
     n_obs = 0
 
     def check(where, snap, when):
@@ -45,7 +46,7 @@ def ledger_monitor(ctx, tr, ix):
         pend = sum(x for _, x in a["pending"])
         have = a["total_cash"] + pend
         ok = True
-        if abs(have - ghost) > 1e-6 * scale(ghost):
+        if abs(have - ghost) > max(1e-6, 1e-9 * scale(ghost)):
             ctx.witness("C01.1", {"kind": "cash_ledger", "where": where.split(":")[0]},
                         "%s at %s: cash balance + deposits in transit = %r, ledger (start + flows - buys + sells - fees + dividends + payouts) = %r" % (where, when, have, ghost),
                         dict(replay, where=where, when=str(when)))
@@ -90,6 +91,12 @@ def ledger_monitor(ctx, tr, ix):
                     ghost += args[0]
                 elif api == "repay":
                     ghost -= args[0]
+            elif api in ("deposit", "withdraw", "finance", "repay"):
+                b0, b1 = (e.get("before") or {}).get("STOCK"), (e.get("after") or {}).get("STOCK")
+                if b0 is not None and b1 is not None and (b0["total_cash"] != b1["total_cash"] or b0["pending"] != b1["pending"] or b0["liab"] != b1["liab"]):
+                    ctx.witness("C01.1", {"kind": "failed_cash_call_booked", "api": api}, "%s%r raised %s but the STOCK account's cash went from %r to %r"
+                                % (api, args, e["exc"], b0["total_cash"], b1["total_cash"]), replay)
+                    ghost += (b1["total_cash"] + sum(x for _, x in b1["pending"])) - (b0["total_cash"] + sum(x for _, x in b0["pending"]))
             check("after " + api, e["after"], e["when"])
         elif kind == "TRADE":
             t = e["trade"]
@@ -130,7 +137,7 @@ def ledger_monitor(ctx, tr, ix):
             if sys_fees and a1 is not None and not acct_sync.nan_in(a1):
                 have = a1["total_cash"] + sum(x for _, x in a1["pending"])
                 fees = sum(f for _, f in sys_fees)
-                if fees > 0 and abs(have - ghost) > 1e-6 * scale(ghost) and abs(have - (ghost + fees)) <= 1e-6 * scale(ghost):
+                if fees > 0 and abs(have - ghost) > max(1e-6, 1e-9 * scale(ghost)) and abs(have - (ghost + fees)) <= max(1e-6, 1e-9 * scale(ghost)):
                     t0 = sys_fees[0][0]
                     ctx.witness("C01.1", {"kind": "reinvestment_fee_not_deducted"},
                                 "dividend reinvestment on %s: trade %s x %s @ %r carries a fee of %r, but the cash balance %r was not reduced by it (ledger says %r)"
@@ -170,14 +177,16 @@ def ledger_monitor(ctx, tr, ix):
     ctx.stats["ledger_observations"] += n_obs
 
 
-def one_run(ctx, corrs, stock_only=False, dense=False):
-    rnd = random.Random(ctx.rnd.random())
+def one_run(ctx, corrs, stock_only=False, dense=False, rs=None, k=None):
+    rs = ctx.rnd.random() if rs is None else rs
+    rnd = random.Random(rs)
     S = B.gen_market(rnd, ndays=rnd.randrange(10, 26), with_future=False if stock_only else None,
                      opts={"p_div": 0.8, "p_split": 0.5, "p_delist": 0.35} if dense else None)
     if not S["stocks"]:
         return
     cfgk = trading.gen_config(rnd, S)
     tr = trading.run_trading(rnd, S, cfgk)
+    tr.run_seed, tr.run_index = rs, k
     ctx.stats["runs"] += 1
     if tr.exc is not None:
         ctx.stats["runs_ended_by_exception:" + type(tr.exc).__name__] += 1
@@ -212,8 +221,13 @@ def one_run(ctx, corrs, stock_only=False, dense=False):
 def run(ctx):
     corrs = {n: ctx.corr("Account." + n, "recorded calls of the real method replayed on the model from the same pre-state (all ledger fields and observers, 1e-9 relative; bit-equality counted)") for n in OPS}
     corrs["chain"] = ctx.corr("no unmodelled mutation", "between two recorded operations of an account its ledger does not change (post_k = pre_{k+1})")
+    forced = getattr(ctx, "replay_run", None)
+    if forced:
+        k, rs = forced
+        one_run(ctx, corrs, stock_only=(k % 3 == 0), dense=(k % 2 == 1), rs=rs, k=k)
+        return
     for k in range(ctx.n(60, 3000)):
-        one_run(ctx, corrs, stock_only=(k % 3 == 0), dense=(k % 2 == 1))
+        one_run(ctx, corrs, stock_only=(k % 3 == 0), dense=(k % 2 == 1), k=k)
 
 
 def replay(ctx, data):
